@@ -47,10 +47,10 @@ def scripts(rnd, quick):
     for i in range(0, len(sc), 300):
         yield sc[i:i + 300]
     # sessions: several requests back to back on one stream and one protocol instance, in arbitrary interleavings
-    for _ in range(60 if quick else 600):
+    for si in range(60 if quick else 600):
         tr, mem16 = rnd.randint(0, 1), rnd.randint(0, 1)
         units = []
-        for _ in range(rnd.randint(2, 8)):
+        for _ in range(rnd.randint(2, 8) if si >= 2 else 300):          # two long-lived instances: 300 cycles each
             write = rnd.randint(0, 1)
             ws16 = rnd.choice([mem16, mem16, mem16, 1 - mem16])
             ws = 2 if ws16 else 1
